@@ -1444,6 +1444,20 @@ static void op_values (V &v, const Op &op, OpResult &res, Bool<true>)
     res.out = "skip";
 }
 
+// ------------------------------------------------------------------ debugger checkpoint (C20)
+#ifndef CFG_GDB
+#define CFG_GDB 0
+#endif
+#if CFG_GDB
+// gdb stops here after every logged call and prints the containers / iterators below with the shipped printers
+extern "C" __attribute__ ((noinline)) void gdb_checkpoint () { asm volatile ("" ::: "memory"); }
+VA::iterator       g_gdb_it;          // refers to element g_gdb_it_index of slot A (or is value-initialised)
+VA::const_iterator g_gdb_cit;
+int                g_gdb_it_index = -1;
+const char        *g_gdb_id = "";
+int                g_gdb_idx = 0;
+#endif
+
 // ------------------------------------------------------------------ running one op, logging one line
 static void refresh_geometry ()
 {
@@ -1578,6 +1592,18 @@ static bool run_op (const Stim &st, int idx, const Op &op, long k1, long k2, boo
       alarm (0);
       g_in_op = 0;
       fwrite (lbuf, 1, static_cast<size_t> (n), g_out);
+#if CFG_GDB
+      g_gdb_id = st.id; g_gdb_idx = idx;
+      { volatile unsigned keep = VA::inline_capacity_v + VB::inline_capacity_v; (void) keep; }   // keep the static members in the debug info
+      g_gdb_it = VA::iterator (); g_gdb_cit = VA::const_iterator (); g_gdb_it_index = -1;
+      if (g_present[0] && slotA ()->size () > 0)
+        {
+          g_gdb_it_index = static_cast<int> (slotA ()->size () / 2);
+          g_gdb_it = slotA ()->begin () + g_gdb_it_index;
+          g_gdb_cit = slotA ()->cbegin () + g_gdb_it_index;
+        }
+      gdb_checkpoint ();
+#endif
     }
   return true;
 }
